@@ -12,6 +12,8 @@ import JT.Model.Registry
 import JT.Model.Attach
 import JT.Model.Path
 import JT.Gen.SaveGuard
+import JT.Model.Term
+import JT.Gen.TermDefaults
 /-!
 Line-protocol driver: one operation per input line, one result line per operation.
 `<idx> <op> <args…>` ↦ `<idx> <result>`.
@@ -396,6 +398,49 @@ def run (phone files : String) : String :=
   | _, _ => "bad-op"
 end ConfineSim
 
+/-! C20: the terminal simulator -/
+namespace TermSim
+open JT JT.Term
+
+def digits (s : String) : Option (List Nat) :=
+  s.toList.mapM (fun c => if c.isDigit then some (c.toNat - 48) else none)
+
+def defaultBody (v id : Nat) : Option Bytes :=
+  (Gen.termDefaults.find? (fun e => e.1 == v && e.2.1 == id)).map (·.2.2.2)
+
+def hexNat (s : String) : Option Nat :=
+  s.toList.foldlM (fun acc c =>
+    if c.isDigit then some (acc * 16 + (c.toNat - 48))
+    else if 'a' ≤ c ∧ c ≤ 'f' then some (acc * 16 + (c.toNat - 87))
+    else none) 0
+
+def gen (v : Nat) (ds : List Nat) (skip : Nat) (cmds : List String) : Option (List String) :=
+  let rec go (t : T) : List String → Option (List String)
+    | [] => some []
+    | c :: r =>
+      match c.splitOn ":" with
+      | [id] =>
+        match hexNat id with
+        | none => none
+        | some id =>
+          match defaultBody v id with
+          | none => (go t r).map ("nil" :: ·)
+          | some b => let (t1, f) := create t id b; (go t1 r).map (toHex f :: ·)
+      | [id, body] =>
+        match hexNat id, ofHex body with
+        | some id, some b => let (t1, f) := create t id b; (go t1 r).map (toHex f :: ·)
+        | _, _ => none
+      | _ => none
+  go ⟨withHeader v ds, skip % 65536⟩ cmds
+
+def expected (seq : Nat) (frame : Bytes) : String :=
+  let (_, msgs, _, err, pn) := Parse.parse 0 Parse.PState.empty frame
+  if pn then "panic" else if err then "nil" else
+  match (Reply.writtenFrames Gen.replyTable ⟨seq, Reply.HState.init⟩ msgs).2 with
+  | [f] => s!"ok {toHex f}"
+  | _ => "none"
+end TermSim
+
 def runOp (op : String) (args : List String) : String :=
   match op, args with
   | "dec", [f] =>
@@ -432,6 +477,17 @@ def runOp (op : String) (args : List String) : String :=
     match ofHex body with
     | none => "bad-op"
     | some b => (totModel ty b).getD "skip"
+  | "tgen", [v, phone, skip, cmds] =>
+    match v.toNat?, TermSim.digits phone, skip.toNat? with
+    | some v, some ds, some k =>
+      match TermSim.gen v ds k (cmds.splitOn ",") with
+      | some fs => "ok " ++ ",".intercalate fs
+      | none => "bad-op"
+    | _, _, _ => "bad-op"
+  | "texp", [_v, _phone, seq, frame] =>
+    match seq.toNat?, ofHex frame with
+    | some q, some f => TermSim.expected q f
+    | _, _ => "bad-op"
   | "confine", [_astype, phone, files, _upload] => ConfineSim.run phone files
   | "att", [_astype, _cut, files, events, _alarm] => AttSim.run files events
   | "reg", [script] => RegSim.run script
